@@ -1,10 +1,10 @@
 #!/bin/sh
 # run_seeded.sh <patch.diff> <Cxx> [tier] : run a check against a scratch copy of /repo with the patch applied.
 # exit code = the check's exit code (1 expected for a property-breaking patch).
-p=$(realpath "$1"); pid=$2; tier=${3:-quick}; wt=/tmp/rs_${pid}_$$
+here=$(cd "$(dirname "$0")/.." && pwd); p=$(realpath "$1"); pid=$2; tier=${3:-quick}; wt=/tmp/rs_${pid}_$$
 git -C /repo worktree add -q $wt HEAD || exit 2
 ( cd $wt && git apply "$p" ) || { echo "PATCH DOES NOT APPLY"; git -C /repo worktree remove --force $wt; exit 2; }
-cd /verif && POLYPLY_REPO=$wt ./check.py $pid --tier $tier; rc=$?
+cd "$here" && POLYPLY_REPO=$wt ./check.py $pid --tier $tier; rc=$?
 rm -rf "$(python3 -c "import hashlib,os,sys;print('/tmp/polyply_verif_lean_'+hashlib.sha1(os.path.realpath(sys.argv[1]).encode()).hexdigest()[:10])" $wt)"
 git -C /repo worktree remove --force $wt; git -C /repo worktree prune
 exit $rc
